@@ -259,7 +259,32 @@ def real_eval_v2(v2, ns, s, how):
 
 # ------------------------------------------------------------------------------------------ the check
 
+def make_sem_cases(c, rng, ctx, corpus, fn_shapes, quick):
+    gen2 = G.Gen(rng, ctx, sides=False, gradient=False)
+    n_sem = 100 if quick else 3000
+    n_sem_edit = 8 if quick else 25
+    sem_cases = []   # (tag, ast or None, string)
+    for s in corpus:
+        sem_cases.append(('corpus', None, s))
+    for k in range(n_sem):
+        depth = rng.choice([0, 1, 2, 2, 3, 3, 4, 5, 6])
+        nfree = rng.choice([0, 0, 1, 1, 2, 3])
+        free = [(l, rng.choice([2, 2, 3])) for l in rng.sample(G.LETTERS, nfree)]
+        ast, _ = gen2.expr(free, depth, set())
+        s = G.pr(ast, G.Style(rng if k % 2 else None))
+        sem_cases.append(('ast', ast, s))
+        for _ in range(n_sem_edit):
+            kind, e = G.random_edit(s, ALPHABET, rng)
+            sem_cases.append(('edit-' + kind, None, e))
+    sem_fns = dict(fn_shapes); del sem_fns['∇']
+    for b in V2_BUILTIN_FNS: sem_fns[b] = ()
+    return sem_cases, ctx_field(sem_fns)
+
+
 def run(c):
+    import warnings
+    warnings.filterwarnings('ignore', category=RuntimeWarning)
+    numpy.seterr(all='ignore')
     import nutils.expression_v2 as v2
     quick = c.tier == 'quick'
     c.rule = ('strings: random source ASTs of the documented v2 grammar (depth <= 6; variables with letter / numeral indices, traces, '
@@ -339,8 +364,10 @@ def run(c):
         seen.add((entry, s)); uniq.append((tag, entry, s))
     cases = uniq
     c.log('stream 1: %d strings (%d ASTs)' % (len(cases), len(asts)))
-    ans = c.model([request(entry, vars_f, fns_f, s) for _, entry, s in cases])
-    c.log('stream 1: model answered')
+    sem_cases, sem_fns_f = make_sem_cases(c, rng, ctx, corpus, fn_shapes, quick)
+    allans = c.model([request(entry, vars_f, fns_f, s) for _, entry, s in cases] + [request('expr', vars_f, sem_fns_f, s) for _, _, s in sem_cases])
+    ans, ans2 = allans[:len(cases)], allans[len(cases):]
+    c.log('model answered (%d requests)' % len(allans))
     model_of = {}
     nbad = 0; mismatches = []
     for (tag, entry, s), a in zip(cases, ans):
@@ -361,27 +388,6 @@ def run(c):
     # ---------------------------------------------------------------- stream 2: semantics of the real v2 namespace
     reader = G.Reader(ctx)
     ns = make_ns_v2(v2, ctx)
-    sem_ctx = G.Context.__new__(G.Context); sem_ctx.__dict__.update(ctx.__dict__)
-    gen2 = G.Gen(rng, ctx, sides=False, gradient=False)
-    n_sem = 150 if quick else 3000
-    n_sem_edit = 12 if quick else 25
-    sem_cases = []   # (tag, ast or None, string)
-    for s in corpus:
-        sem_cases.append(('corpus', None, s))
-    for k in range(n_sem):
-        depth = rng.choice([0, 1, 2, 2, 3, 3, 4, 5, 6])
-        nfree = rng.choice([0, 0, 1, 1, 2, 3])
-        free = [(l, rng.choice([2, 2, 3])) for l in rng.sample(G.LETTERS, nfree)]
-        ast, _ = gen2.expr(free, depth, set())
-        s = G.pr(ast, G.Style(rng if k % 2 else None))
-        sem_cases.append(('ast', ast, s))
-        for _ in range(n_sem_edit):
-            kind, e = G.random_edit(s, ALPHABET, rng)
-            sem_cases.append(('edit-' + kind, None, e))
-    sem_fns = dict(fn_shapes); del sem_fns['∇']
-    for b in V2_BUILTIN_FNS: sem_fns[b] = ()
-    sem_fns_f = ctx_field(sem_fns)
-    ans2 = c.model([request('expr', vars_f, sem_fns_f, s) for _, _, s in sem_cases])
     c.log('stream 2: %d strings, model answered' % len(sem_cases))
     sem_bad = 0; sem_findings = 0
     for (tag, ast, s), a in zip(sem_cases, ans2):
